@@ -62,6 +62,13 @@ def scenarios(tier, seed):
                 if m == "AHE" and tol < 1e-6:
                     continue      # second order pair: tens of thousands of steps, beyond the monitor's event budget
                 scs.append(gen.base(m, a, b, 0.2, rtol=tol, atol=tol, problem="steeplate", y0=[1.0], budget=1000000))
+    # Richardson wrappers of splitting methods choose their next step by halving / doubling inside the wrapper (finding f29: signed
+    # comparisons never ended on backward steps)
+    for base_m in ["ABAS5O6H"] + (["BABS9O7H"] if thorough else []):
+        for (a, b) in ((0.0, 2.0), (2.0, 0.0), (-1.0, -3.0)):
+            sc = gen.base({"rich": base_m, "levels": 2}, a, b, 0.05, rtol=1e-6, atol=1e-6, dense=(a > b), budget=400000)
+            sc["ops"] = [{"op": "integrate", "t": a + (b - a) * 0.5}, {"op": "integrate"}]
+            scs.append(sc)
     # dtypes
     for dt_ in ("float32", "longdouble"):
         for m in ["RK4", "RK45CK", "ABAS5O6H"] + (["BackwardEuler", "DOPRI45"] if thorough else []):
